@@ -537,6 +537,7 @@ def run_universe(chk, u: str, timeout: int = 1500, only_sig: Dict[str, Any] = No
   chk.require(not missing_c, f'vacuous: no compatible pair with a in families {sorted(missing_c)} ({u})')
   chk.require(not missing_e, f'vacuous: no successful extension with child in families {sorted(missing_e)} ({u})')
   chk.evaluations += sum(counters.values())
+  chk.traces += ns          # observed relations (one per spec: its apply / compat / extend rows) validated by TLC
   for k, v in counters.items():
     chk.count(k, v)
   chk.count('cells_accepted', n_ok)
